@@ -207,6 +207,16 @@ JudgeSeidel(L, E) ==
           \cup {<<"operand_sum", i>> : i \in {j \in 1..12 :
                   ~(Len(E.opsum) = 12 /\ Near(E.opsum[j], SumSeq(F[j], n), F[j]))}}
           \cup {<<"operand_seidel", i>> : i \in {j \in 1..5 : ~(Len(E.opS) = 5 /\ Near2(E.opS[j], E.S[j]))}}
+          \* the chief ray the terms are built on carries the full field of the lens: the Lagrange
+          \* invariant of the recorded rays (taken behind surface 1) is that of the field and aperture
+          \* specification - n0 h u0 for an object of height h, n0 y1 tan(F) for a field angle F
+          \* (E.fs.kind = "none": combinations for which no such closed form is claimed)
+          \cup (IF E.fs.kind = "none" THEN {}
+                ELSE LET lag == LagT(L, E.ma, E.ch, 1)
+                         H == Sub(lag[1], lag[2])
+                         want == IF E.fs.kind = "height" THEN Mul(N(L, 0), Mul(E.fs.v, At(E.ma.u, 0)))
+                                 ELSE Mul(N(L, 0), Mul(E.fs.v, At(E.ma.y, 1)))
+                     IN IF Near2(Abs(H), Abs(want)) THEN {} ELSE {<<"chief_carries_field", 0>>})
           \* small-aperture limit: with the image surface at the paraxial focus, the real on-axis ray through
           \* pupil height eps lands at  eps y_K + TSC_total eps^3 + O(eps^5)   (eps = 2^-3, 2^-4)
           \cup (IF ~E.sa.has THEN {}
